@@ -13,7 +13,7 @@ from ..loader import AnalysisError
 from .valeq import check_typed_identity, check_json_bytes, check_enum_distinct
 from .c16 import sibling_reference_sites
 from .ladders import (extract_ladder, check_ladder_order, repo_subclass_pairs, handler_ladder, dispatch_model, _bound_value, _literal_seq,
-                      table_entries, _Unsupported, subst, sequence_elements, resolve_callee, handler_type_names, comprehension_elements, fold_lookups)
+                      table_entries, _Unsupported, subst, sequence_elements, resolve_callee, handler_type_names, comprehension_elements, fold_lookups, record_fields, Dispatch)
 from . import partition_model as PM
 
 RL = "runner_local.memento_run_local"
@@ -811,7 +811,72 @@ def strategy_table(fa):
             if isinstance(ve, ast.Call) and isinstance(ve.func, ast.Call) and A.call_attr(ve.func) == "partial" and ve.func.args:
                 ve = ast.Call(func=ve.func.args[0], args=list(ve.func.args[1:]) + list(ve.args), keywords=[])   # partial(C, a)() is C(a)
             table[dk.split(".")[1]] = A.call_attr(ve) if isinstance(ve, ast.Call) else None
+    # entries whose key and value come from the same row of a table walked in (nested) loops: what an abstract run of the body
+    # leaves in its dictionaries (later entries replace earlier ones there as they do at run time)
+    if not table or any(v is None for v in table.values()):
+        for (_nm, ent) in sorted(tables_built(fa).items()):
+            got = {}
+            for (k, v) in ent:
+                dk = A.dotted(k)
+                if dk and dk.startswith("ResultType.") and dk.count(".") == 1:
+                    got[dk.split(".")[1]] = A.call_attr(v) if isinstance(v, ast.Call) and A.dotted(v.func) is not None else None
+            for m_, v_ in got.items():
+                if table.get(m_) is None:
+                    table[m_] = v_
     return table
+
+
+class _TableRun(Dispatch):
+    """Abstract run of a function that fills dictionaries (a strategy table built in loops over literal tables, entries whose
+    key and value come from the same row): a local bound to a dictionary display follows `d[k] = v`, and `getattr(x, "name")`
+    is `x.name`."""
+
+    def _bind(self, target, value, env):
+        if isinstance(target, ast.Subscript) and isinstance(target.value, ast.Name) and isinstance(env.get(target.value.id), ast.Dict):
+            d = env[target.value.id]
+            k = self.ev(target.slice, dict(env), ("<no class>", "exact", "own"))
+            env[target.value.id] = ast.Dict(keys=list(d.keys) + [k], values=list(d.values) + [value])
+            return
+        Dispatch._bind(self, target, value, env)
+
+    def _call(self, e, env, w):
+        if isinstance(e.func, ast.Name) and e.func.id == "getattr" and e.func.id not in env and len(e.args) == 2 and not e.keywords:
+            o, nm = self.ev(e.args[0], env, w), self.ev(e.args[1], env, w)
+            if A.const_str(nm) and A.const_str(nm).isidentifier():
+                return ast.Attribute(value=o, attr=A.const_str(nm), ctx=ast.Load())
+        if isinstance(e.func, ast.Attribute) and e.func.attr == "update" and isinstance(e.func.value, ast.Name) and isinstance(env.get(e.func.value.id), ast.Dict) \
+                and len(e.args) <= 1 and all(k.arg for k in e.keywords):
+            add = self.ev(e.args[0], env, w) if e.args else ast.Dict(keys=[], values=[])
+            if not isinstance(add, ast.Dict) or any(k is None for k in add.keys):
+                raise _Unsupported("update with something that is not a display")
+            d = env[e.func.value.id]
+            env[e.func.value.id] = ast.Dict(keys=list(d.keys) + list(add.keys) + [ast.Constant(value=k.arg) for k in e.keywords],
+                                            values=list(d.values) + list(add.values) + [self.ev(k.value, env, w) for k in e.keywords])
+            return ast.Constant(value=None)
+        return Dispatch._call(self, e, env, w)
+
+
+def tables_built(fa):
+    """{local name: [(key, value)]} -- the dictionaries the function holds in its locals when it ends, entries in the order they
+    were made, decided by running the body abstractly (loops over literal tables unrolled); {} when the body is not understood or
+    its paths disagree."""
+    params = [p for p in (fa.fi.params or []) if p not in ("self", "cls")] or list(fa.fi.params or [])
+    if not params:
+        return {}
+    try:
+        run = _TableRun(fa, [], subject=params[0])
+        comps = run._block(fa.node.body, {}, ("<no class>", "exact", "own"))
+    except (_Unsupported, AnalysisError, RecursionError):
+        return {}
+    ends = [env for (kind, env, _v) in comps if kind in ("fall", "return")]
+    if not ends:
+        return {}
+    out = {}
+    for nm in ends[0]:
+        vs = [e.get(nm) for e in ends]
+        if all(isinstance(v, ast.Dict) and all(k is not None for k in v.keys) for v in vs) and len({A.norm(v) for v in vs}) == 1 and vs[0].keys:
+            out[nm] = list(zip(vs[0].keys, vs[0].values))
+    return out
 
 
 def check_exhaustive(ck, R):
@@ -1624,6 +1689,20 @@ def mapping_built(fa, expr, at):
         for (_ln, ent) in sorted(later, key=lambda x: x[0]):
             out += ent
         return out
+    if isinstance(expr, ast.Call) and A.call_attr(expr) == "_asdict" and not expr.args and not expr.keywords and A.call_recv(expr) is not None:
+        # <named tuple>._asdict(): its fields, in declaration order, with what the constructor was given for them
+        rec, at_r = follow_value(fa, A.call_recv(expr), at)
+        if isinstance(rec, ast.Call) and isinstance(rec.func, ast.Name) and not fa.df.is_local(rec.func.id):
+            fs = record_fields(fa, rec.func.id)
+            if fs is not None and not any(isinstance(a, ast.Starred) for a in rec.args) and all(k.arg for k in rec.keywords):
+                out = []
+                for i, f in enumerate(fs):
+                    a = A.arg_or_kw(rec, i, f)
+                    if a is None:
+                        return None
+                    out.append((ast.copy_location(ast.Constant(value=f), expr), a, at_r))
+                return out
+        return None
     ent = table_entries(fa, expr, at)
     return None if ent is None else [(k, v, at) for (k, v) in ent]
 
@@ -1882,6 +1961,11 @@ def check_forget_reaches_answers(ck, R):
     sources = []
     for c in im.calls():
         r = A.call_recv(c)
+        if r is not None and not isinstance(r, ast.Attribute) and im.nodes(c):
+            try:
+                r = _parse(im.xnorm(r, im.nodes(c)[0]))    # a local standing for the field
+            except (AnalysisError, SyntaxError):
+                pass
         if isinstance(r, ast.Attribute) and isinstance(r.value, ast.Name) and r.value.id == me and r.attr not in sources:
             sources.append(r.attr)
     ck.need(sources, "StorageBackendBase.is_memoized consults no field of the backend")
@@ -1940,7 +2024,15 @@ def check_forget_reaches_answers(ck, R):
                 ok = _delivered_through_generic_helper(ck, bcls, fa, name, src, explicit, sme)
             wit = None if ok else fa.cfg.path(fa.cfg.entry, fa.cfg.exit, removed=events, edge_ok=edge_ok)
             verdicts_.append((src, src_txt, ok, wit, bool(events)))
-        if not any(ok for (_s, _t, ok, _w, _e) in verdicts_) and not any(e for (_s, _t, _o, _w, e) in verdicts_):
+        followed = False
+        if not all(ok for (_s, _t, ok, _w, _e) in verdicts_):
+            # the message is not sent by a call that names the source: what an abstract run of the method (helpers, loops over
+            # the configured parts, operation chosen by name) sends on each of its normal paths
+            ran = _delivered_by_run(ck, bcls, fa, name, sources, explicit, sme)
+            if ran is not None:
+                followed = True
+                verdicts_ = [(s_, t_, ok or ran.get(s_, False), (None if (ok or ran.get(s_, False)) else w_), e_ or all(ran.values())) for (s_, t_, ok, w_, e_) in verdicts_]
+        if not followed and not any(ok for (_s, _t, ok, _w, _e) in verdicts_) and not any(e for (_s, _t, _o, _w, e) in verdicts_):
             # nothing is sent to any source by name here: if the operation is handed to something this rule does not follow (a
             # helper iterating "the stores", a generator of layers), say so instead of reporting each source as skipped
             indirect = [c for c in fa.calls() if _own_method(ck.repo, bcls, c, sme)[0] is not None and A.call_attr(c) not in CACHE_QUERIES] or \
@@ -1952,6 +2044,264 @@ def check_forget_reaches_answers(ck, R):
                   "%s is delivered to %s (consulted by is_memoized) on every path on which it is configured" % (name, src_txt) if ok else
                   "%s can return (path %s) without telling %s to forget, yet is_memoized consults it: the forgotten call is still reported "
                   "as memoized / served from there" % (name, fa.cfg.describe_path(wit) if wit else "?", src_txt), fa.where())
+
+
+_SENDS, _YIELDS = "@sends", "@yields"
+
+
+class _MessageRun(_TableRun):
+    """Abstract run of a method that hands an operation on to the parts of its object, in a *world* that says which of the
+    optional parts are configured (`self.<part>` is truthy / is not None).  The store carries the messages sent so far
+    (`<receiver>.<operation>(<args>)`), however they are spelled: a direct call, `getattr(part, operation)(*args)`, an
+    `operator.methodcaller(operation, *args)` applied to the part, in a loop over a display / a list put together with append /
+    what a generator method of the class yields, inside helper methods of the class (followed, with their own paths)."""
+
+    def __init__(self, ck, cls, fa, me, operations, configured):
+        self.ck, self.cls, self.me = ck, cls, me
+        self.ops = set(operations)
+        self.configured = dict(configured)     # {part: bool}
+        self._depth = 0
+        self.unsupported = None
+        self.fa = fa
+        _TableRun.__init__(self, fa, [], subject=me)
+
+    # ---- the world ---------------------------------------------------------------------------------
+    def _part(self, e):
+        if isinstance(e, ast.Attribute) and isinstance(e.value, ast.Name) and e.value.id == self.me and e.attr in self.configured:
+            return e.attr
+        return None
+
+    def _tv(self, e):
+        p = self._part(e)
+        if p is not None:
+            return self.configured[p]
+        if isinstance(e, ast.Call) and isinstance(e.func, ast.Name) and e.func.id == "bool" and len(e.args) == 1 and not e.keywords:
+            return self._tv(e.args[0])
+        return Dispatch._tv(e)
+
+    def _compare(self, l, op, r, w):
+        if isinstance(op, (ast.Is, ast.IsNot)):
+            for (a, b) in ((l, r), (r, l)):
+                if A.is_none(b) and self._part(a) is not None:
+                    isnone = not self.configured[self._part(a)]
+                    return isnone if isinstance(op, ast.Is) else (not isnone)
+        return Dispatch._compare(self, l, op, r, w)
+
+    def ev(self, e, env, w):
+        if isinstance(e, ast.BinOp) and isinstance(e.op, ast.Add):
+            l, r = self.ev(e.left, env, w), self.ev(e.right, env, w)
+            if type(l) is type(r) and isinstance(l, (ast.Tuple, ast.List)) and not any(isinstance(x, ast.Starred) for x in list(l.elts) + list(r.elts)):
+                return type(l)(elts=list(l.elts) + list(r.elts), ctx=ast.Load())     # (a,) + (b,)
+            return ast.BinOp(left=l, op=e.op, right=r)
+        if isinstance(e, (ast.Tuple, ast.List)) and any(isinstance(x, ast.Starred) for x in e.elts):
+            elts = []
+            for x in e.elts:
+                if isinstance(x, ast.Starred):
+                    v = self.ev(x.value, env, w)
+                    if not isinstance(v, (ast.Tuple, ast.List)) or any(isinstance(y, ast.Starred) for y in v.elts):
+                        raise _Unsupported("unpacking of something that is not a display")
+                    elts += list(v.elts)
+                else:
+                    elts.append(self.ev(x, env, w))
+            return type(e)(elts=elts, ctx=ast.Load())
+        if isinstance(e, ast.Call) and isinstance(e.func, ast.Name) and e.func.id == "filter" and e.func.id not in env and len(e.args) == 2 and A.is_none(e.args[0]):
+            v = self.ev(e.args[1], env, w)
+            if isinstance(v, (ast.Tuple, ast.List)):
+                tvs = [self._tv(x) for x in v.elts]
+                if all(t is not None for t in tvs):
+                    return ast.List(elts=[x for x, t in zip(v.elts, tvs) if t], ctx=ast.Load())
+        return _TableRun.ev(self, e, env, w)
+
+    # ---- messages -----------------------------------------------------------------------------------
+    def _send(self, env, recv, op, args):
+        cur = env.get(_SENDS) or ast.List(elts=[], ctx=ast.Load())
+        msg = ast.Tuple(elts=[recv, ast.Constant(value=op)] + list(args), ctx=ast.Load())
+        env[_SENDS] = ast.List(elts=list(cur.elts) + [msg], ctx=ast.Load())
+
+    def _flat_args(self, e, env, w):
+        out = []
+        for a in e.args:
+            if isinstance(a, ast.Starred):
+                v = self.ev(a.value, env, w)
+                if not isinstance(v, (ast.Tuple, ast.List)) or any(isinstance(x, ast.Starred) for x in v.elts):
+                    return None
+                out += list(v.elts)
+            else:
+                out.append(self.ev(a, env, w))
+        return out
+
+    def _call(self, e, env, w):
+        f = e.func
+        # list.append on a local list display
+        if isinstance(f, ast.Attribute) and f.attr in ("append", "extend") and isinstance(f.value, ast.Name) and isinstance(env.get(f.value.id), ast.List) \
+                and len(e.args) == 1 and not e.keywords:
+            v = self.ev(e.args[0], env, w)
+            cur = env[f.value.id]
+            if f.attr == "append":
+                env[f.value.id] = ast.List(elts=list(cur.elts) + [v], ctx=ast.Load())
+            elif isinstance(v, (ast.List, ast.Tuple)):
+                env[f.value.id] = ast.List(elts=list(cur.elts) + list(v.elts), ctx=ast.Load())
+            else:
+                raise _Unsupported("extend with something that is not a display")
+            return ast.Constant(value=None)
+        fv = None
+        if isinstance(f, ast.Name):
+            fv = env.get(f.id)
+        elif isinstance(f, (ast.Attribute, ast.Call)):
+            fv = self.ev(f, env, w)
+        if isinstance(fv, ast.Attribute) and fv.attr in self.ops and not e.keywords:
+            args = self._flat_args(e, env, w)
+            if args is None:
+                raise _Unsupported("arguments of a forwarded operation are not evident")
+            self._send(env, fv.value, fv.attr, args)
+            return ast.Constant(value=None)
+        if isinstance(fv, ast.Call) and A.call_attr(fv) == "methodcaller" and fv.args and A.const_str(fv.args[0]) in self.ops \
+                and len(e.args) == 1 and not e.keywords and not fv.keywords and not any(isinstance(a, ast.Starred) for a in list(e.args) + list(fv.args)):
+            self._send(env, self.ev(e.args[0], env, w), A.const_str(fv.args[0]), list(fv.args[1:]))
+            return ast.Constant(value=None)
+        if isinstance(fv, ast.Call) and A.call_attr(fv) == "partial" and fv.args and isinstance(fv.args[0], ast.Attribute) and fv.args[0].attr in self.ops \
+                and not e.keywords and not fv.keywords and not any(isinstance(a, ast.Starred) for a in list(e.args) + list(fv.args)):
+            self._send(env, fv.args[0].value, fv.args[0].attr, list(fv.args[1:]) + [self.ev(a, env, w) for a in e.args])
+            return ast.Constant(value=None)
+        return _TableRun._call(self, e, env, w)
+
+    # ---- helper methods of the class -------------------------------------------------------------------
+    def _own(self, call, env):
+        f = call.func
+        if isinstance(f, ast.Attribute) and isinstance(f.value, ast.Name) and f.attr not in self.ops:
+            base = env.get(f.value.id, f.value)
+            if isinstance(base, ast.Name) and base.id == self.me:
+                m = self.ck.repo.find_method(self.cls, f.attr)
+                if m is not None and not m.is_static and m.params:
+                    return m
+        return None
+
+    def _enter(self, call, env, w):
+        """[(kind, store of the caller afterwards, value)] of a call to a method of the class, run on its own paths."""
+        m = self._own(call, env)
+        a = m.node.args
+        if self._depth >= 4 or a.kwonlyargs or a.kwarg or call.keywords or m.node.decorator_list:
+            raise _Unsupported("helper %s is not followed" % m.name)
+        for x in ast.walk(m.node):
+            if isinstance(x, ast.Attribute) and isinstance(x.ctx, (ast.Store, ast.Del)) and x.attr in self.configured:
+                raise _Unsupported("a part is reassigned")
+        args = self._flat_args(call, env, w)
+        params = [x.arg for x in a.posonlyargs + a.args][1:]
+        if args is None or len(args) < len(params) - len(a.defaults) or (len(args) > len(params) and not a.vararg):
+            raise _Unsupported("arguments of helper %s" % m.name)
+        inner = {m.params[0]: ast.Name(id=self.me, ctx=ast.Load()), _SENDS: env.get(_SENDS) or ast.List(elts=[], ctx=ast.Load())}
+        for i, pn in enumerate(params):
+            inner[pn] = args[i] if i < len(args) else a.defaults[i - (len(params) - len(a.defaults))]
+        if a.vararg:
+            inner[a.vararg.arg] = ast.Tuple(elts=list(args[len(params):]), ctx=ast.Load())
+        is_gen = any(isinstance(x, (ast.Yield, ast.YieldFrom)) for x in A.walk_body(m.node))
+        if is_gen:
+            inner[_YIELDS] = ast.List(elts=[], ctx=ast.Load())
+        self._depth += 1
+        try:
+            comps = self._block(m.node.body, inner, w)
+        finally:
+            self._depth -= 1
+        out = []
+        for (kind, e3, val) in comps:
+            if kind in ("break", "continue"):
+                raise _Unsupported("break / continue outside a loop")
+            after = dict(env)
+            after[_SENDS] = e3.get(_SENDS) or ast.List(elts=[], ctx=ast.Load())
+            if kind == "raise":
+                out.append(("raise", after, val))
+            elif is_gen:
+                if A.norm(after[_SENDS]) != A.norm(inner[_SENDS]):
+                    raise _Unsupported("a generator that sends messages itself")
+                out.append(("value", after, e3[_YIELDS]))
+            else:
+                out.append(("value", after, _parse(val) if kind == "return" else ast.Constant(value=None)))
+        return out
+
+    def _stmt(self, st, env, w):
+        if isinstance(st, ast.Expr) and isinstance(st.value, ast.Yield) and _YIELDS in env:
+            e2 = dict(env)
+            v = self.ev(st.value.value, e2, w) if st.value.value is not None else ast.Constant(value=None)
+            e2[_YIELDS] = ast.List(elts=list(e2[_YIELDS].elts) + [v], ctx=ast.Load())
+            return [("fall", e2, None)]
+        if isinstance(st, ast.Expr) and isinstance(st.value, ast.YieldFrom) and _YIELDS in env:
+            e2 = dict(env)
+            v = self.ev(st.value.value, e2, w)
+            if not isinstance(v, (ast.List, ast.Tuple)):
+                raise _Unsupported("yield from something that is not a display")
+            e2[_YIELDS] = ast.List(elts=list(e2[_YIELDS].elts) + list(v.elts), ctx=ast.Load())
+            return [("fall", e2, None)]
+        if any(isinstance(x, (ast.Yield, ast.YieldFrom)) for x in ([st.value] if isinstance(st, (ast.Expr, ast.Assign, ast.Return)) and st.value is not None else [])):
+            raise _Unsupported("yield in an unusual place")
+        call = st.value if isinstance(st, (ast.Expr, ast.Assign, ast.Return)) and isinstance(getattr(st, "value", None), ast.Call) else None
+        if call is not None and self._own(call, env) is not None:
+            out = []
+            for (kind, e2, val) in self._enter(call, dict(env), w):
+                if kind == "raise":
+                    out.append(("raise", e2, val))
+                elif isinstance(st, ast.Expr):
+                    out.append(("fall", e2, None))
+                elif isinstance(st, ast.Return):
+                    out.append(("return", e2, A.norm(val)))
+                else:
+                    for t in st.targets:
+                        self._bind(t, val, e2)
+                    out.append(("fall", e2, None))
+            return out
+        if isinstance(st, (ast.For, ast.AsyncFor)) and isinstance(st.iter, ast.Call) and self._own(st.iter, env) is not None:
+            out = []
+            for (kind, e2, val) in self._enter(st.iter, dict(env), w):
+                if kind == "raise":
+                    out.append(("raise", e2, val))
+                    continue
+                if not isinstance(val, (ast.List, ast.Tuple)):
+                    raise _Unsupported("loop over what a helper returns")
+                loop = ast.For(target=st.target, iter=val, body=st.body, orelse=st.orelse)
+                out += Dispatch._stmt(self, ast.copy_location(loop, st), e2, w)
+            return out
+        if isinstance(st, ast.Return):
+            e2 = dict(env)
+            v = self.ev(st.value, e2, w) if st.value is not None else self._const(None)
+            return [("return", e2, A.norm(v))]
+        if isinstance(st, ast.AugAssign) and isinstance(st.op, ast.Add) and isinstance(st.target, ast.Name) and isinstance(env.get(st.target.id), ast.List):
+            e2 = dict(env)
+            v = self.ev(st.value, e2, w)
+            if not isinstance(v, (ast.List, ast.Tuple)):
+                raise _Unsupported("+= with something that is not a display")
+            e2[st.target.id] = ast.List(elts=list(e2[st.target.id].elts) + list(v.elts), ctx=ast.Load())
+            return [("fall", e2, None)]
+        return _TableRun._stmt(self, st, env, w)
+
+
+def _delivered_by_run(ck, bcls, fa, name, sources, explicit, me):
+    """{source: True / False} -- is the operation `name` (with the forgotten thing, when there is one) sent to the source on
+    every path on which the method returns normally, in every world in which that source is configured?  Decided by running the
+    method abstractly (`_MessageRun`).  None when the method uses a construct the run does not model."""
+    import itertools
+    verdict = {src: True for src in sources}
+    ops = ("forget_call", "forget_function", "forget_everything")
+    try:
+        for combo in itertools.product((True, False), repeat=len(sources)):
+            world = dict(zip(sources, combo))
+            run = _MessageRun(ck, bcls, fa, me, ops, world)
+            comps = run._block(fa.node.body, {_SENDS: ast.List(elts=[], ctx=ast.Load())}, ("<no class>", "exact", "own"))
+            for (kind, env, _v) in comps:
+                if kind not in ("fall", "return"):
+                    continue
+                got = env.get(_SENDS)
+                for src in sources:
+                    if not world[src]:
+                        continue
+                    hit = False
+                    for msg in (got.elts if got is not None else []):
+                        recv, op, args = msg.elts[0], A.const_str(msg.elts[1]), msg.elts[2:]
+                        if A.norm(recv) == "%s.%s" % (me, src) and op == name and (not explicit or (args and explicit[0] in A.names_in(args[0]))):
+                            hit = True
+                    if not hit:
+                        verdict[src] = False
+    except (_Unsupported, AnalysisError, RecursionError, SyntaxError):
+        return None
+    return verdict
 
 
 def _delivered_through_generic_helper(ck, bcls, fa, name, src, explicit, me):
